@@ -430,13 +430,13 @@ func (c *clientImpl) rangeScanFromShard(ctx context.Context, minKeyInclusive str
 		SecondaryIndexName: secondaryIndexName,
 	}
 
+	defer close(ch)
+
 	client, err := c.executor.ExecuteRangeScan(ctx, request)
 	if err != nil {
 		ch <- GetResult{Err: err}
 		return
 	}
-
-	defer close(ch)
 
 	for {
 		response, err := client.Recv()
